@@ -168,7 +168,8 @@ CHECKS["C10"] = {
 
 CHECKS["C13"] = {
     "level": "fault_enumeration",
-    "jobs": [J("runners", "c13", "TestRunners", 2500, 160000, 8), J("globalsettings", "c13", "TestGlobalSettingsRunner", 400, 10000, 2, env={"VERIF_GLOBAL_SETTINGS": "1"})],
+    "jobs": [J("runners", "c13", "TestRunners", 2500, 160000, 8), J("globalsettings", "c13", "TestGlobalSettingsRunner", 400, 10000, 2, env={"VERIF_GLOBAL_SETTINGS": "1"}),
+             J("registered", "c13", "TestStaticRegisteredRunners", None, None, env={"VERIF_GLOBAL_SETTINGS": "1"})],
     "assumptions": ["the failing runner is chosen per case from all positions (each choice of failing runner, not only the first or last)"],
 }
 CHECKS["C14"] = {
